@@ -331,6 +331,35 @@ class AsyncFile:
         pass
 
 
+class SyncPieces:
+    """File-like whose read(n) hands the data out in the pieces it arrived in (pipe / socket / decompressor style):
+    a read may legally return fewer than n bytes although more follow; only b'' means EOF."""
+
+    def __init__(self, chunks):
+        self._pieces = [c for c in chunks if c]
+        self.closed_n = 0
+
+    def read(self, n=-1):
+        if not self._pieces:
+            return b''
+        p = self._pieces[0]
+        if n is None or n < 0 or len(p) <= n:
+            return self._pieces.pop(0)
+        self._pieces[0] = p[n:]
+        return p[:n]
+
+    def close(self):
+        self.closed_n += 1
+
+
+class AsyncPieces(SyncPieces):
+    async def read(self, n=-1):
+        return SyncPieces.read(self, n)
+
+    async def close(self):
+        self.closed_n += 1
+
+
 class AsyncIter:
     def __init__(self, chunks):
         self._it = iter(chunks)
@@ -364,6 +393,10 @@ def set_stream_sync(resp, b):
         resp.stream = SyncFile(chunks, closable=False)
     elif kind == 'set_stream':
         resp.set_stream(SyncFile(chunks), n)
+    elif kind == 'file_short':
+        resp.stream = SyncPieces(chunks)
+    elif kind == 'set_stream_short':
+        resp.set_stream(SyncPieces(chunks), n)
 
 
 def set_stream_async(resp, b):
@@ -383,6 +416,10 @@ def set_stream_async(resp, b):
         resp.stream = AsyncFile(chunks, closable=False)
     elif kind == 'set_stream':
         resp.set_stream(AsyncFile(chunks), n)
+    elif kind == 'file_short':
+        resp.stream = AsyncPieces(chunks)
+    elif kind == 'set_stream_short':
+        resp.set_stream(AsyncPieces(chunks), n)
 
 
 def media_conv(m):
@@ -532,34 +569,84 @@ def trace(*a):
     CUR['cap'].setdefault('trace', []).append(list(a))
 
 
-class WMiddleware:
-    def process_request(self, req, resp):
-        trace('req', req.method, req.path)
-        if CUR['script']['short_circuit']:
-            resp.text = 'short-circuited'
-            resp.complete = True
-
-    def process_resource(self, req, resp, resource, params):
-        trace('rsrc', type(resource).__name__[1:], conv(params), req.uri_template)
-
-    def process_response(self, req, resp, resource, req_succeeded):
-        trace('resp', resource is not None, bool(req_succeeded), resp.status_code)
-        resp.set_header('X-Trace', '%d' % len(CUR['cap'].get('trace', ())))
+def sc_plan(s):
+    """script['short_circuit'] -> (component index, stage) or None.  True is the historic spelling of (0, 'request')."""
+    v = s.get('short_circuit')
+    if v is None or v is False:
+        return None
+    if v is True:
+        return (0, 'request')
+    if isinstance(v, int):
+        return (v, 'request')
+    return (v[0], v[1])
 
 
-class AMiddleware:
-    async def process_request(self, req, resp):
-        trace('req', req.method, req.path)
-        if CUR['script']['short_circuit']:
-            resp.text = 'short-circuited'
-            resp.complete = True
+def mw_step(idx, stage, resp):
+    """Common body of every middleware method: short-circuit and scripted faults."""
+    s = CUR['script']
+    if stage != 'response' and sc_plan(s) == (idx, stage):
+        resp.text = 'short-circuited by %d/%s' % (idx, stage)
+        resp.complete = True
+    f = s.get('mw_fault')
+    if f and f[0] == idx and f[1] == stage:
+        if f[2] == 'http':
+            raise falcon.HTTPForbidden(description='middleware %d %s' % (idx, stage), headers={'X-Mw-Fault': '%d' % idx})
+        if f[2] == 'custom':
+            raise CustomError('mw %d %s' % (idx, stage))
+        raise ValueError('scripted middleware fault %d %s' % (idx, stage))
 
-    async def process_resource(self, req, resp, resource, params):
-        trace('rsrc', type(resource).__name__[1:], conv(params), req.uri_template)
 
-    async def process_response(self, req, resp, resource, req_succeeded):
-        trace('resp', resource is not None, bool(req_succeeded), resp.status_code)
-        resp.set_header('X-Trace', '%d' % len(CUR['cap'].get('trace', ())))
+# the stack: which hooks each component has (falcon pairs request/response hooks per component when
+# independent_middleware=False, so the shapes matter)
+MW_SHAPES = [('request', 'resource', 'response'), ('request', 'response'), ('response',), ('request', 'resource')]
+
+
+def make_middleware(asgi):
+    comps = []
+    for idx, shape in enumerate(MW_SHAPES):
+        ns = {}
+
+        def on_request(req, resp, idx=idx):
+            trace('req', req.method, req.path, idx)
+            mw_step(idx, 'request', resp)
+
+        def on_resource(req, resp, resource, params, idx=idx):
+            trace('rsrc', type(resource).__name__[1:], conv(params), req.uri_template, idx)
+            mw_step(idx, 'resource', resp)
+
+        def on_response(req, resp, resource, req_succeeded, idx=idx):
+            trace('resp', resource is not None, bool(req_succeeded), resp.status_code, idx)
+            resp.set_header('X-Mw-%d' % idx, '%d' % len(CUR['cap'].get('trace', ())))
+            if idx == 0:
+                resp.set_header('X-Trace', '%d' % len(CUR['cap'].get('trace', ())))
+            mw_step(idx, 'response', resp)
+
+        if asgi:
+            async def process_request(self, req, resp, f=on_request):
+                f(req, resp)
+
+            async def process_resource(self, req, resp, resource, params, f=on_resource):
+                f(req, resp, resource, params)
+
+            async def process_response(self, req, resp, resource, req_succeeded, f=on_response):
+                f(req, resp, resource, req_succeeded)
+        else:
+            def process_request(self, req, resp, f=on_request):
+                f(req, resp)
+
+            def process_resource(self, req, resp, resource, params, f=on_resource):
+                f(req, resp, resource, params)
+
+            def process_response(self, req, resp, resource, req_succeeded, f=on_response):
+                f(req, resp, resource, req_succeeded)
+        if 'request' in shape:
+            ns['process_request'] = process_request
+        if 'resource' in shape:
+            ns['process_resource'] = process_resource
+        if 'response' in shape:
+            ns['process_response'] = process_response
+        comps.append(type('%sMw%d' % ('A' if asgi else 'W', idx), (), ns)())
+    return comps
 
 
 def w_responder(req, resp, **params):
@@ -635,12 +722,17 @@ ROUTES = ['/', '/items', '/items/{item_id}', '/u/{name}/posts/{pid:int}', '/file
 _APPS = {}
 
 
-def apps_for(opts):
-    key = tuple(bool(x) for x in opts)
+def apps_of(req):
+    return apps_for(req['opts'], req.get('mw') or 'independent')
+
+
+def apps_for(opts, mw='independent'):
+    key = tuple(bool(x) for x in opts) + (mw,)
     if key in _APPS:
         return _APPS[key]
-    wa = falcon.App(middleware=[WMiddleware()])
-    aa = falcon.asgi.App(middleware=[AMiddleware()])
+    indep = mw != 'dependent'
+    wa = falcon.App(middleware=make_middleware(False), independent_middleware=indep)
+    aa = falcon.asgi.App(middleware=make_middleware(True), independent_middleware=indep)
     for app, res, sink, handler in ((wa, WResource(), w_sink, w_custom_handler), (aa, AResource(), a_sink, a_custom_handler)):
         app.req_options.strip_url_path_trailing_slash = key[0]
         app.req_options.keep_blank_qs_values = key[1]
@@ -703,7 +795,7 @@ def begin(req):
 
 
 def leg_w(req, env_patch=None):
-    wa = apps_for(req['opts'])[0]
+    wa = apps_of(req)[0]
     cap = begin(req)
     env = M.to_environ(req, file_wrapper=req['script']['file_wrapper'])
     if env_patch:
@@ -720,7 +812,7 @@ def leg_w(req, env_patch=None):
 
 
 def leg_a(req):
-    aa = apps_for(req['opts'])[1]
+    aa = apps_of(req)[1]
     cap = begin(req)
     scope, events = M.to_scope(req)
     res = A.run_asgi_http(aa, scope, events=events)
@@ -742,7 +834,7 @@ def leg_sim(req, asgi):
     kw, why = M.sim_kwargs(req, DEFAULT_UA)
     if kw is None:
         return None, why
-    wa, aa, wtap, atap, hold = apps_for(req['opts'])
+    wa, aa, wtap, atap, hold = apps_of(req)
     cap = begin(req)
     hold.clear()
     cap['leg'] = 'SA' if asgi else 'SW'
@@ -766,21 +858,27 @@ def leg_sim(req, asgi):
         else:
             fw = W.FileWrapper if req['script']['file_wrapper'] else None
             result = testing.simulate_request(wtap, wsgierrors=io.StringIO(), file_wrapper=fw, **kw)
-    except AssertionError as ex:
-        if asgi:
-            cap['escaped'] = rec_exc(ex)
-        else:
-            cap['validator'] = repr(ex)[:200]       # wsgiref.validate refused the environ or the response
-    except (TypeError, ValueError) as ex:
-        if asgi:
-            # ASGIResponseEventCollector validates events with these; an app error looks the same
-            cap['validator'] = repr(ex)[:200]
-        cap['escaped'] = rec_exc(ex)
     except Exception as ex:  # noqa
-        cap['escaped'] = rec_exc(ex)
+        sim_exception(cap, asgi, ex)
     finally:
         A.aio.shared()     # make sure the stepped loop is the current one again
         asyncio.set_event_loop(A.aio.shared().loop)
+    sim_finish(cap, hold, asgi, result)
+    return cap, None
+
+
+def sim_exception(cap, asgi, ex):
+    if isinstance(ex, AssertionError) and not asgi:
+        cap['validator'] = repr(ex)[:200]           # wsgiref.validate refused the environ or the response
+        return
+    if isinstance(ex, (TypeError, ValueError)) and asgi:
+        # ASGIResponseEventCollector validates events with these; an app error looks the same
+        cap['validator'] = repr(ex)[:200]
+    cap['escaped'] = rec_exc(ex)
+
+
+def sim_finish(cap, hold, asgi, result):
+    """Response as recorded by the tap between the simulator and the app."""
     if asgi:
         evs = hold.get('a') or []
         status, hs, body = None, [], b''
@@ -798,7 +896,109 @@ def leg_sim(req, asgi):
         else:
             cap['resp'] = None
     cap['_result'] = result
-    return cap, None
+
+
+# =================================================================================== client histories
+
+def history_requests(hist):
+    """history -> [(abstract request, simulate kwargs)] per step.
+
+    Documented client semantics (TestClient / ASGIConductor `headers=`): "Default headers to set on every request ...
+    may be overridden by passing values for the same headers to one of the simulate_*() methods" - so the abstract
+    request of step i carries defaults updated by that step's own headers, and nothing from any other step."""
+    out = []
+    for step in hist['steps']:
+        merged = dict(hist['defaults'] or {})
+        merged.update(step.get('headers') or {})
+        req = M.new_request(method=step.get('method', 'GET'), target=step.get('target', '/items'), query=step.get('query', ''),
+                            headers=[[k, v] for k, v in merged.items()], body=step.get('body', ''), opts=hist.get('opts', [False, True, False]),
+                            mw=hist.get('mw', 'independent'))
+        req['script'] = step.get('script') or G.default_script()
+        M.finalize(req)
+        G.with_sim(req, DEFAULT_UA)
+        kw, why = M.sim_kwargs(req, DEFAULT_UA)
+        if kw is None:
+            raise ValueError('history step not expressible: %s' % why)
+        if 'headers' in step:
+            kw['headers'] = None if step['headers'] is None else dict(step['headers'])
+        else:
+            kw.pop('headers', None)
+        out.append((req, kw))
+    return out
+
+
+def run_history(rec, hist):
+    """One client object per stack, several requests through it: TestClient on WSGI (TW), TestClient one-shot on ASGI (TA),
+    and the ASGIConductor of `async with TestClient(asgi_app)` (CA); every step is compared with the driver legs."""
+    steps = history_requests(hist)
+    first = steps[0][0]
+    wa, aa, wtap, atap, hold = apps_of(first)
+    refs = [(leg_w(req), leg_a(req)) for req, _ in steps]
+    legs = {'TW': [], 'TA': [], 'CA': []}
+    defaults = hist['defaults']
+
+    def mkdefaults():
+        return None if defaults is None else dict(defaults)
+
+    cw = testing.TestClient(wtap, headers=mkdefaults())
+    ca = testing.TestClient(atap, headers=mkdefaults())
+    for name, client, asgi in (('TW', cw, False), ('TA', ca, True)):
+        for req, kw in steps:
+            cap = begin(req)
+            hold.clear()
+            cap.update({'leg': name, 'kwargs': dict(kw), 'escaped': None, 'problems': []})
+            result = None
+            try:
+                extra = {} if asgi else {'wsgierrors': io.StringIO()}
+                result = client.simulate_request(**extra, **kw)
+            except Exception as ex:  # noqa
+                sim_exception(cap, asgi, ex)
+            finally:
+                asyncio.set_event_loop(A.aio.shared().loop)
+            sim_finish(cap, hold, asgi, result)
+            legs[name].append(cap)
+
+    async def conduct():
+        async with testing.TestClient(atap, headers=mkdefaults()) as conductor:
+            for req, kw in steps:
+                cap = begin(req)
+                hold.clear()
+                cap.update({'leg': 'CA', 'kwargs': dict(kw), 'escaped': None, 'problems': []})
+                result = None
+                try:
+                    result = await conductor.simulate_request(**kw)
+                except Exception as ex:  # noqa
+                    sim_exception(cap, True, ex)
+                sim_finish(cap, hold, True, result)
+                legs['CA'].append(cap)
+    try:
+        falcon.async_to_sync(conduct)
+    finally:
+        asyncio.set_event_loop(A.aio.shared().loop)
+    rec.count('hist.histories')
+    for name in ('TW', 'TA', 'CA'):
+        for i, cap in enumerate(legs[name]):
+            req = steps[i][0]
+            ref = refs[i][0] if name == 'TW' else refs[i][1]
+            check_result_object(rec, req, cap)
+            rec.count('mon.digest.%s' % name)
+            rec.count('mon.response.%s' % name)
+            diffs = compare_caps(cap, ref)
+            if diffs:
+                rec.violation('%s-step%d:' % (name, i) + '+'.join(sorted(set(d[0] for d in diffs))),
+                              {'history': hist, 'step': i, 'leg': name, 'req': req, 'simulate_request_kwargs': cap.get('kwargs'),
+                               'differences': [[d[0], d[1]] for d in diffs][:4],
+                               'differing_keys': sorted(set(k for d in diffs for k in d[2]))[:30]})
+    for i, (w, a) in enumerate(refs):
+        diffs = compare_caps(w, a)
+        rec.count('mon.digest.W-A')
+        rec.count('mon.response.W-A')
+        if diffs:
+            rec.violation('W-A-step%d:' % i + '+'.join(sorted(set(d[0] for d in diffs))),
+                          {'history': hist, 'step': i, 'req': steps[i][0], 'differences': [[d[0], d[1]] for d in diffs][:4]})
+    if any(s.get('headers') for s in hist['steps'][:-1]) and defaults:
+        rec.count('hist.defaults+extra-then-later-request')
+    rec.case(json.dumps(hist, sort_keys=True))
 
 
 # =================================================================================== comparison
@@ -888,8 +1088,12 @@ def run_case(rec, req, report=True):
             rec.count('resp.raise.' + s['raise'][0])
         if s['propagate']:
             rec.count('resp.propagate')
-        if s['short_circuit']:
+        if sc_plan(s):
             rec.count('resp.short-circuit')
+            rec.count('mw.short-circuit.%d.%s' % sc_plan(s))
+        if s.get('mw_fault'):
+            rec.count('mw.fault.%s.%s' % (s['mw_fault'][1], s['mw_fault'][2]))
+        rec.count('mw.mode.' + (req.get('mw') or 'independent'))
         branch_counters(rec, req, cw, ca)
     compare = M.comparable(req)
     if compare:
@@ -1278,7 +1482,11 @@ CLASS_FLOORS = ['cls.path-pct-utf8', 'cls.path-invalid-utf8', 'cls.path-trailing
                 'resp.body.data', 'resp.body.media', 'resp.body.stream.gen', 'resp.body.stream.file',
                 'resp.body.stream.set_stream', 'read.read', 'read.readn', 'read.iter', 'read.media', 'read.multipart',
                 'fam.E6.sim-style', 'fam.E6.sim-query-style', 'sim.style.inline-query', 'sim.style.inline-query-with-qmark',
-                'sim.style.params-dict', 'fam.E6.sim-ows', 'sim.style.ows-header-value', 'sim.style.none-header-value']
+                'sim.style.params-dict', 'fam.E6.sim-ows', 'sim.style.ows-header-value', 'sim.style.none-header-value',
+                'fam.E7.middleware', 'mw.mode.dependent', 'mw.short-circuit.0.request', 'mw.short-circuit.1.request',
+                'mw.short-circuit.3.request', 'mw.short-circuit.0.resource', 'mw.fault.request.http', 'mw.fault.resource.exc',
+                'mw.fault.response.custom', 'resp.body.stream.file_short', 'resp.body.stream.set_stream_short',
+                'fam.H.client-history', 'hist.defaults+extra-then-later-request', 'mon.digest.TW', 'mon.digest.TA', 'mon.digest.CA']
 
 
 def run(rec):
@@ -1293,6 +1501,12 @@ def run(rec):
         n_fam += 1
         if idx % 1499 == 0:
             rec.sample({'family': family, 'req': {k: req[k] for k in ('method', 'target', 'query', 'headers', 'opts')}})
+    for hist in G.histories(rec.tier):
+        idx += 1
+        if idx % rec.nshards != rec.shard:
+            continue
+        run_history(rec, hist)
+        rec.count('fam.H.client-history')
     rec.exhaustive = False
     if rec.shard == 0:
         rec.note('bounded-exhaustive families enumerated completely: %d cases over all shards' % idx)
@@ -1302,6 +1516,8 @@ def run(rec):
             req = G.rand_request(rng, DEFAULT_UA)
             one(rec, req)
             rec.count('random.cases')
+        run_history(rec, G.rand_history(rng))
+        rec.count('random.histories')
     for k, v in FLOORS[rec.tier].items():
         rec.floor(k, v)
     for k in CLASS_FLOORS:
@@ -1311,6 +1527,9 @@ def run(rec):
 def replay(rec, w):
     setup(rec)
     wit = w['witness']
+    if wit.get('history'):
+        run_history(rec, wit['history'])
+        return
     for key in ('req', 'original_req'):
         req = wit.get(key)
         if req:
